@@ -143,12 +143,15 @@ Proof. exact dict_roundtrip_lemma. Qed.
 Theorem dict_roundtrip_built : forall ops t, from_dict (to_dict (build ops, t)) = Some (build ops, t).
 Proof. exact dict_roundtrip_built_lemma. Qed.
 
-(* ... and `from_dict(to_dict(cs)) == cs` evaluates to True whenever the comparison is defined, i.e.
-   when the system has a dosing compartment (guard g_has_dosing; see Refuted.eq_raises_refuted). *)
+(* ... and `from_dict(to_dict(cs)) == cs` is True for EVERY well-formed system, with or without dose or
+   central compartment (no guard since fix 876afb2: == no longer raises). *)
 Theorem dict_roundtrip_eq : forall g t,
-  WF g -> dosing_compartments g <> None ->
-  exists s', from_dict (to_dict (g, t)) = Some s' /\ cs_eq s' (g, t) = Some true.
+  WF g -> exists s', from_dict (to_dict (g, t)) = Some s' /\ cs_eq s' (g, t) = true.
 Proof. exact dict_roundtrip_eq_lemma. Qed.
+
+(* == is reflexive on every well-formed system *)
+Theorem cs_eq_refl : forall g t, WF g -> cs_eq (g, t) (g, t) = true.
+Proof. exact cs_eq_refl_lemma. Qed.
 
 (* ---- substitution ---------------------------------------------------------------------------------------------------- *)
 (* subs keeps nodes and edges and substitutes every expression: each flow of the substituted system
